@@ -2015,12 +2015,14 @@ impl VirtualFileSystem for Memfs {
     fn set_cwd<T: AsRef<Path>>(&self, path: T) -> RvResult<PathBuf> {
         let mut guard = self.write_guard();
         let path = self._abs(&guard, path)?;
-        match guard.get_entry(&path) {
-            Some(x) if x.is_dir() => {},
+        // The working directory is the directory itself, a link to it is resolved as chdir(2) does
+        let cwd = match guard.get_entry(&path) {
+            Some(x) if x.is_dir() && x.is_symlink() => x.alt_buf(),
+            Some(x) if x.is_dir() => path.clone(),
             Some(_) => return Err(PathError::is_not_dir(&path).into()),
             None => return Err(PathError::does_not_exist(&path).into()),
-        }
-        guard.set_cwd(path.clone());
+        };
+        guard.set_cwd(cwd);
         Ok(path)
     }
 
